@@ -13,12 +13,12 @@ import (
 
 type extFn func(e *Exec, caller *frame, pos token.Pos, fn *ssa.Function, args []Value) Value
 
-var externals map[string]extFn
+var externals = map[string]extFn{}
 
 const zz = "github.com/jf-tech/omniparser/zzverif."
 
 func init() {
-	externals = map[string]extFn{
+	for k, v := range map[string]extFn{
 		zz + "NondetInt":    extNondetInt,
 		zz + "NondetBool":   extNondetBool,
 		zz + "NondetByte":   extNondetByte,
@@ -157,6 +157,8 @@ func init() {
 		"runtime.KeepAlive": extNop,
 		"runtime.GC":        extNop,
 		"os.Getenv":         func(e *Exec, _ *frame, _ token.Pos, _ *ssa.Function, _ []Value) Value { return StrV{} },
+	} {
+		externals[k] = v
 	}
 }
 
